@@ -21,6 +21,7 @@ DOC = {
         'C02.R4': 'no mutating primitive reachable from run_script has a mutated-path argument with role KEEP',
         'C02.R5': 'the regular-file filter and the length filter run before FileSubGroup::group on every path',
         'C02.R6': 'for HardLink and RefLink the group is partitioned by device before partition()',
+        'C02.R8': 'the sub-groups that partition keeps or drops as a whole are formed as documented: by root first, then by file identifier (hard links, symlink + target), else singletons (re-evaluates C06.R4, C06.R5 on FileSubGroup::group, which dedupe::partition calls)',
         'C02.R7': 'the modification check covers the whole group, including the files that will be retained (re-evaluates C04.R1, C04.R2, C04.R3)',
     },
     'not_decided': 'that the members of a group really are identical (C01); the symlink-as-only-retained-copy case under --isolate -S (documented limitation D15); report round trip (C10)',
@@ -36,6 +37,7 @@ def run(ctx):
     r5(ctx)
     r6(ctx)
     r7(ctx)
+    r8(ctx)
     from .common import run_mandatory
     run_mandatory(ctx, 'C02')
 
@@ -347,3 +349,22 @@ def r7(ctx):
         o['detail'] = '[%s] %s' % (o['rule'], o['detail'])
         o['rule'] = 'C02.R7'
     ctx.rules_run.add('C02.R7')
+
+
+def r8(ctx):
+    from . import c06
+    before = len(ctx.obligations)
+    c06.r4(ctx)
+    if hasattr(c06, 'r5'):
+        try:
+            c06.r5(ctx)
+        except TypeError:
+            pass
+    for o in ctx.obligations[before:]:
+        o['key'] = o['key'].replace(o['rule'] + '|', 'C02.R8|', 1)
+        o['detail'] = '[%s] %s' % (o['rule'], o['detail'])
+        o['rule'] = 'C02.R8'
+    ctx.rules_run.add('C02.R8')
+    p = ctx.lib.body('dedupe::partition')
+    if p is not None:
+        ctx.check(bool(p.calls(r'FileSubGroup::<.*>::group$|FileSubGroup::<F>::group$|FileSubGroup.*::group$')), 'C02.R8', 'dedupe::partition|uses-subgroups', p.where(), 'partition builds its units with FileSubGroup::group', 'partition no longer builds its units with FileSubGroup::group')
